@@ -1,9 +1,88 @@
 package f32
 
+// Property C08, in-repo part for gonum.org/v1/gonum/internal/asm/f32: every
+// exported kernel against the scalar loop of its doc comment. This file is
+// injected into the package with go test -overlay; the machinery is in
+// verifharness/inrepo/ik.
+
 import (
 	"testing"
 
+	"verifharness/inrepo/ik"
 	"verifharness/vk"
 )
 
 func TestMain(m *testing.M) { vk.Main(m, "C08") }
+
+type (
+	vkArgs = ik.Args[float32]
+	vkOp   = ik.Op[float32]
+)
+
+var (
+	vkAll    = []int{ik.ClsFinite, ik.ClsExtreme, ik.ClsSpecial}
+	vkNoSpec = []int{ik.ClsFinite, ik.ClsExtreme}
+)
+
+func vkRet(v float32) complex128 { return complex(float64(v), 0) }
+
+var vkOps = []*vkOp{
+	{Name: "AxpyUnitary", Family: "Axpy", Classes: vkAll, Ref: ik.RefAxpyUnitary[float32],
+		Shape: ik.Shape{HasX: true, HasY: true, WritesY: true, Alpha: true},
+		Call:  func(a *vkArgs) { AxpyUnitary(a.Alpha, a.X, a.Y) }},
+	{Name: "AxpyUnitaryTo", Family: "Axpy", Classes: vkAll, Ref: ik.RefAxpyUnitaryTo[float32],
+		Shape: ik.Shape{HasX: true, HasY: true, HasDst: true, Alpha: true, AliasX: true, AliasY: true},
+		Call:  func(a *vkArgs) { AxpyUnitaryTo(a.Dst, a.Alpha, a.X, a.Y) }},
+	{Name: "AxpyInc", Family: "Axpy", Classes: vkAll, Ref: ik.RefAxpyInc[float32],
+		Shape: ik.Shape{HasX: true, HasY: true, Inc: true, Idx: true, WritesY: true, Alpha: true, NegInc: true},
+		Call:  func(a *vkArgs) { AxpyInc(a.Alpha, a.X, a.Y, a.N, a.IncX, a.IncY, a.IX, a.IY) }},
+	{Name: "AxpyIncTo", Family: "Axpy", Classes: vkAll, Ref: ik.RefAxpyIncTo[float32],
+		Shape: ik.Shape{HasX: true, HasY: true, HasDst: true, Inc: true, Idx: true, Alpha: true, AliasX: true, AliasY: true, NegInc: true},
+		Call: func(a *vkArgs) {
+			AxpyIncTo(a.Dst, a.IncD, a.ID, a.Alpha, a.X, a.Y, a.N, a.IncX, a.IncY, a.IX, a.IY)
+		}},
+	{Name: "DotUnitary", Family: "Dot", Classes: vkNoSpec, Red: ik.RedDot,
+		Shape: ik.Shape{HasX: true, HasY: true},
+		Call:  func(a *vkArgs) { a.Ret = vkRet(DotUnitary(a.X, a.Y)) }},
+	{Name: "DotInc", Family: "Dot", Classes: vkNoSpec, Red: ik.RedDot,
+		Shape: ik.Shape{HasX: true, HasY: true, Inc: true, Idx: true, NegInc: true},
+		Call:  func(a *vkArgs) { a.Ret = vkRet(DotInc(a.X, a.Y, a.N, a.IncX, a.IncY, a.IX, a.IY)) }},
+	{Name: "DdotUnitary", Family: "Dot", Classes: vkNoSpec, Red: ik.RedDot, Acc64: true,
+		Shape: ik.Shape{HasX: true, HasY: true},
+		Call:  func(a *vkArgs) { a.Ret = complex(DdotUnitary(a.X, a.Y), 0) }},
+	{Name: "DdotInc", Family: "Dot", Classes: vkNoSpec, Red: ik.RedDot, Acc64: true,
+		Shape: ik.Shape{HasX: true, HasY: true, Inc: true, Idx: true, NegInc: true},
+		Call:  func(a *vkArgs) { a.Ret = complex(DdotInc(a.X, a.Y, a.N, a.IncX, a.IncY, a.IX, a.IY), 0) }},
+	{Name: "ScalUnitary", Family: "Scal", Classes: vkAll, Ref: ik.RefScalUnitary[float32],
+		Shape: ik.Shape{HasX: true, WritesX: true, Alpha: true},
+		Call:  func(a *vkArgs) { ScalUnitary(a.Alpha, a.X) }},
+	{Name: "ScalUnitaryTo", Family: "Scal", Classes: vkAll, Ref: ik.RefScalUnitaryTo[float32],
+		Shape: ik.Shape{HasX: true, HasDst: true, Alpha: true, AliasX: true},
+		Call:  func(a *vkArgs) { ScalUnitaryTo(a.Dst, a.Alpha, a.X) }},
+	{Name: "ScalInc", Family: "Scal", Classes: vkAll, Ref: ik.RefScalInc[float32],
+		Shape: ik.Shape{HasX: true, Inc: true, WritesX: true, Alpha: true},
+		Call:  func(a *vkArgs) { ScalInc(a.Alpha, a.X, a.N, a.IncX) }},
+	{Name: "ScalIncTo", Family: "Scal", Classes: vkAll, Ref: ik.RefScalIncTo[float32],
+		Shape: ik.Shape{HasX: true, HasDst: true, Inc: true, Alpha: true, AliasX: true},
+		Call:  func(a *vkArgs) { ScalIncTo(a.Dst, a.IncD, a.Alpha, a.X, a.N, a.IncX) }},
+	{Name: "Sum", Family: "Norm", Classes: vkNoSpec, Red: ik.RedSum,
+		Shape: ik.Shape{HasX: true},
+		Call:  func(a *vkArgs) { a.Ret = vkRet(Sum(a.X)) }},
+	{Name: "L2NormUnitary", Family: "Norm", Classes: vkAll, Red: ik.RedL2,
+		Shape: ik.Shape{HasX: true},
+		Call:  func(a *vkArgs) { a.Ret = vkRet(L2NormUnitary(a.X)) }},
+	{Name: "L2NormInc", Family: "Norm", Classes: vkAll, Red: ik.RedL2,
+		Shape: ik.Shape{HasX: true, Inc: true},
+		Call:  func(a *vkArgs) { a.Ret = vkRet(L2NormInc(a.X, a.N, a.IncX)) }},
+	{Name: "L2DistanceUnitary", Family: "Norm", Classes: vkAll, Red: ik.RedL2Dist,
+		Shape: ik.Shape{HasX: true, HasY: true},
+		Call:  func(a *vkArgs) { a.Ret = vkRet(L2DistanceUnitary(a.X, a.Y)) }},
+}
+
+func TestVKAxpy(t *testing.T) { ik.RunFamily(t, "f32", vkOps, "Axpy") }
+func TestVKDot(t *testing.T)  { ik.RunFamily(t, "f32", vkOps, "Dot") }
+func TestVKScal(t *testing.T) { ik.RunFamily(t, "f32", vkOps, "Scal") }
+func TestVKNorm(t *testing.T) { ik.RunFamily(t, "f32", vkOps, "Norm") }
+func TestVKGe(t *testing.T) {
+	ik.RunGe(t, "f32", ik.GeFns[float32]{Ger: Ger, GemvN: GemvN, GemvT: GemvT})
+}
